@@ -141,6 +141,28 @@ CLAIMED["C12"] = dict(
     technique="exhaustive enumeration of database forms x operand variants (and machine states on silicon) with the ISA database and native execution as oracle",
     design_ref="3/C12", engine="harness/c12_rwinfo.cpp")
 
+CLAIMED["C06"] = dict(
+    level="exploration",
+    text="(a) all signatures of length <=4 (quick) / <=5 (thorough) over 20 argument types and, for lengths 6..32, three default signatures with <=2 deviating positions, "
+         "x every calling convention id of 8 targets x varargs x return types, judged by reference classifiers written from the psABIs / Microsoft / Apple documents; a "
+         "sanitizer leg; and an executed interop leg on the host (asmjit caller <-> clang-compiled C callee for SysV, Win64 and vectorcall, 46 signatures, both directions). "
+         "(b) every assignment of <=3 (thorough 4) arguments of 10 type/widening kinds to {own register, register of any other argument (all permutation cycles), two foreign "
+         "registers, a stack slot} for 6 conventions: emit_prolog + emit_args_assignment are interpreted by the msim node simulator and every destination must hold its argument.",
+    note="Cases where compilers disagree or the ABI is silent (mmx/mask arguments, f80 on Microsoft targets, ...) are counted as undecided; x86-32/AArch64 shuffles are simulated, "
+         "not executed; known findings: integer widening to a wider destination type is not applied on AArch64, after swaps, and for stack destinations.",
+    technique="exhaustive enumeration of signatures x conventions and of argument assignments (full product within bounds) with reference ABI classifiers, a real compiler and a machine-state simulator as oracles",
+    design_ref="3/C06", engine="harness/c06_abi.cpp")
+
+CLAIMED["C15"] = dict(
+    level="fault_enumeration",
+    text="16 workloads (assembler with labels/sections/relocations/address table, builder, x86 and a64 compiler with spills/calls/jump tables/const pools, JitRuntime single/dual "
+         "mapping, containers, const pool, String, arena; fresh and recycled objects): for every class (arena requests through hook H1, heap through --wrap malloc/realloc/calloc, "
+         "virtual memory through --wrap mmap/munmap/mprotect/ftruncate/memfd) every single failure position k and pairs (same class and cross class within bounds), each in a "
+         "forked child under ASan/UBSan: no crash/UB/leak, error or identical output, objects recover (reset/reinit/destroy), retry on the same and on fresh objects equals the clean run.",
+    note="At most two injected failures per run; failing munmap/close/free is not injected; far-apart pairs in the largest workload are outside the quick window.",
+    technique="exhaustive enumeration of fault positions (every k per request class, bounded pairs) on the implementation with differential and sanitizer oracles",
+    design_ref="3/C15", engine="harness/c15_faults.cpp")
+
 NOT_YET = "check not built yet in this round (planned, see DESIGN.md section 3); not claimed until it exists and passes"
 
 
